@@ -302,7 +302,9 @@ def derive_square(ctx, pol, kinds, cls: ClassInfo, dtypes: bool = False):
         return (True, 'element-wise scaling under the strict shape-preservation guard') if _strict_guard(table, cls) else (False, 'mv broadcasts (kind RScale) without the strict shape-preservation guard')
     if cls.name == 'SymmetricBandToeplitzOperator':
         mv = table.resolve(cls, 'mv')
-        sig = [n.value for n in ast.walk(mv.node) if isinstance(n, ast.Constant) and isinstance(n.value, str) and '->' in n.value] if mv else []
+        from ..loader import string_constants
+
+        sig = [v for v in string_constants(mv.node) if '->' in v] if mv else []
         ok = any(x.replace(' ', '') == '(n),(k)->(n)' for x in sig)
         return ok, 'vectorize signature (n),(k)->(n): the core axis keeps its length' if ok else f'vectorize signature {sig} does not map the core axis n to n'
     if cls.name == 'ToastObservationMatrixOperator':
